@@ -1,4 +1,5 @@
 import CifModel.Lemmas.StoreIter
+import CifModel.Lemmas.StoreRefineQ
 /-
   Property C06 — packet iterators deliver each packet once; close commits, abort reverts.
 
@@ -22,6 +23,14 @@ theorem C06_delivers_each_once (s : Store) (it : Iter) (cs : List Call) (d : Db)
 theorem C06_packet_complete (names : List Str) (g : List ValueRow) (p : List (Str × V)) (h : fill names g = some p) :
     p.map (·.1) = names ∧ ∀ k ∈ names, (∀ r ∈ g, r.name ≠ k) → (k, V.unk) ∈ p :=
   ⟨fill_keys names g p h, fun k hk hn => fillPacket_untouched g _ p k .unk h hn (List.mem_map.mpr ⟨k, hk, rfl⟩)⟩
+
+/-- cif_pktitr_next_packet with a CALLER-SUPPLIED packet (`mergeCallerPacket`, Model/PktItr.lean: "replacing the contents … includes
+    removing items that do not belong to the iterated loop"): whatever the caller's packet held — nothing, some of the loop's names,
+    foreign names, other spellings — afterwards looking up ANY item name in it gives exactly what the packet just read holds for
+    that name (the value for a loop item, nothing for a name that is not the loop's). -/
+theorem C06_caller_packet (caller : List (Str × Str)) (p : List (Str × V)) (k : Str) :
+    ((mergeCallerPacket caller p).find? (fun e => e.1 == k)).map (fun e => e.2.2) = (p.find? (fun e => e.1 == k)).map (·.2) :=
+  mergeCallerPacket_lookup caller p k
 
 /-- a fresh iterator starts at the first packet of the loop as stored at creation, with no current packet -/
 theorem C06_open (s s2 : Store) (l : LH) (it : Iter) (ha : s.autocommit = true) (h : getPackets s l = (s2, .ok it)) :
